@@ -119,6 +119,7 @@ __data_repo_entry_used_once(data_repo_t *repo, parsec_key_t key
     if( (e->usagelmt == r) && (0 == e->retained) ) {
         PARSEC_DEBUG_VERBOSE(20, parsec_debug_output, "entry %p/%s of hash table %s has a usage count of %u/%u and is not retained: freeing it at %s:%d",
                              e, repo->table.key_functions.key_print(estr, 64, e->ht_item.key, repo->table.hash_data), tablename, r, r, file, line);
+        PARSEC_VERIF_EVENT("datarepo_reclaim", key, r, e->usagelmt, e->retained, 1);  /* reclamation site, under the bucket lock */
         parsec_hash_table_nolock_remove_handle(&repo->table, &kh);
         parsec_hash_table_unlock_bucket_handle(&repo->table, &kh);
 
@@ -159,6 +160,7 @@ __data_repo_entry_addto_usage_limit(data_repo_t *repo, parsec_key_t key, uint32_
                              "entry %p/%s of hash table %s has a usage count of %u/%u and is"
                              " not retained: freeing it at %s:%d",
                              e, repo->table.key_functions.key_print(estr, 64, e->ht_item.key, repo->table.hash_data),tablename, e->usagecnt, e->usagelmt, file, line);
+        PARSEC_VERIF_EVENT("datarepo_reclaim", key, e->usagecnt, e->usagelmt, e->retained, 2);  /* reclamation site, under the bucket lock */
         parsec_hash_table_nolock_remove_handle(&repo->table, &kh);
         parsec_hash_table_unlock_bucket_handle(&repo->table, &kh);
         parsec_thread_mempool_free(e->data_repo_mempool_owner, e );
